@@ -177,14 +177,14 @@ def _try(fn, *a):
         return type(e).__name__
 
 
-def h4_getfont(n=3, timeout=150, part=None, **kw):
+def h4_getfont(ncalls=3, timeout=150, part=None, **kw):
     import pdfminer.pdfinterp as pi
 
     def fn(ex):
         specs = _fontspecs()
         names = ["f1", "f2", "t1", "t3"]
         caching = ex.choice(2, "caching") == 1
-        hist = [names[ex.choice(4, "h%d" % i)] for i in range(n)]
+        hist = [names[ex.choice(4, "h%d" % i)] for i in range(ncalls)]
         ids = {"f1": 11, "f2": 12, "t1": 13, "t3": 14}
         rm = pi.PDFResourceManager(caching=caching)
         before = {k: _snap(v) for k, v in specs.items()}
@@ -203,7 +203,7 @@ def h4_getfont(n=3, timeout=150, part=None, **kw):
     def conc(m, info):
         return info
     return core.run_symx("H4_getfont", fn, [pi.PDFResourceManager.get_font], {"fonts": "two Type0 fonts sharing one descendant (only one has ToUnicode), a Type1 and a Type3 font",
-                                                                            "history": "every sequence of %d get_font calls" % n, "caching": "on/off"}, timeout, concretize=conc, part=part)
+                                                                            "history": "every sequence of %d get_font calls" % ncalls, "caching": "on/off"}, timeout, concretize=conc, part=part)
 
 
 def h5_idempotent(timeout=100, **kw):
@@ -355,7 +355,7 @@ def jobs(tier):
         for k in range(6):
             J.append(Job("H7_histories:%d" % k, "h7_histories", {"part": [k, 6, 8]}, 300, "H7_histories"))
     else:               # one call more in every history
-        J = [j for j in J if j.name not in ("H4_getfont", "H6_mapcache")] + [Job("H4_getfont:n4", "h4_getfont", {"n": 4}, 600, "H4_getfont"), Job("H4_getfont:n5", "h4_getfont", {"n": 5}, 900, "H4_getfont"),
+        J = [j for j in J if j.name not in ("H4_getfont", "H6_mapcache")] + [Job("H4_getfont:n4", "h4_getfont", {"ncalls": 4}, 600, "H4_getfont"), Job("H4_getfont:n5", "h4_getfont", {"ncalls": 5}, 900, "H4_getfont"),
                                                                            Job("H6_mapcache:n4", "h6_mapcache", {"n": 4}, 600, "H6_mapcache")]
         for k in range(16):
             J.append(Job("H7_histories:n4:%d" % k, "h7_histories", {"n": 4, "part": [k, 16, 10]}, 1800, "H7_histories"))
